@@ -287,3 +287,12 @@ class Facts:
                 if recursive or b.path.count("{closure#") == body.path.count("{closure#") + 1:
                     out.append(b)
         return out
+
+
+def qual(name):
+    """readable generic-free callee name that keeps `<T as Trait>::m` information: 'T as Trait::m'"""
+    m = re.match(r"^<(.*) as (.*)>::([A-Za-z_0-9]+)$", name or "")
+    if m:
+        ty, tr, meth = m.group(1), m.group(2), m.group(3)
+        return "%s as %s::%s" % (strip_generics(ty).lstrip("&").strip() or ty, strip_generics(tr), meth)
+    return strip_generics(name or "")
